@@ -34,15 +34,19 @@ theorem c10_handlers_disciplined (name : String) (sk : Sk) (hm : (name, sk) ∈ 
 theorem hook_after_success (body : Sk) (h : Held) (t : Trace) (o : Outcome) (hx : Exec (.lock .w body) h t o)
     (hok : ∀ x, o ≠ .raised x) : ∃ t' hh, t = t' ++ [(.hook, hh)] := by
   cases hx with
-  | lockDone _ _ _ h1 t0 _ => exact ⟨t0, h1, by simp⟩
-  | lockRet _ _ _ h1 t0 _ => exact ⟨t0, h1, by simp⟩
+  | lockDone _ _ _ h1 t0 _ => exact ⟨(.acquire, h) :: t0, h1, by simp⟩
+  | lockRet _ _ _ h1 t0 _ => exact ⟨(.acquire, h) :: t0, h1, by simp⟩
   | lockRaise _ _ _ h1 _ _ => exact absurd rfl (hok none)
 
 /-- … and not when the window is left by an exception -/
 theorem no_hook_on_exception (body : Sk) (h : Held) (t : Trace) (x : Held) (hx : Exec (.lock .w body) h t (.raised x))
     (hb : ∀ t' o', Exec body (some .w) t' o' → ∀ p ∈ t', p.1 ≠ .hook) : ∀ p ∈ t, p.1 ≠ .hook := by
   cases hx with
-  | lockRaise _ _ _ h1 _ hbody => exact hb _ _ hbody
+  | lockRaise _ _ _ h1 _ hbody =>
+    intro p hp
+    rcases List.mem_cons.mp hp with hp | hp
+    · subst hp; simp
+    · exact hb _ _ hbody p hp
 
 /-- a skeleton without exclusive windows never runs the hook -/
 def noW : Sk → Bool
@@ -88,15 +92,27 @@ theorem no_hook_without_w (sk : Sk) (h : Held) (t : Trace) (o : Outcome) (hx : E
   | lockDone m body h h1 t _ ih =>
     cases m with
     | w => simp [noW] at hn
-    | r => simp only [noW] at hn; intro p hp; simp at hp; exact ih hn p hp
+    | r =>
+      simp only [noW] at hn; intro p hp; simp at hp
+      rcases hp with hp | hp
+      · subst hp; simp
+      · exact ih hn p hp
   | lockRet m body h h1 t _ ih =>
     cases m with
     | w => simp [noW] at hn
-    | r => simp only [noW] at hn; intro p hp; simp at hp; exact ih hn p hp
+    | r =>
+      simp only [noW] at hn; intro p hp; simp at hp
+      rcases hp with hp | hp
+      · subst hp; simp
+      · exact ih hn p hp
   | lockRaise m body h h1 t _ ih =>
     cases m with
     | w => simp [noW] at hn
-    | r => simp only [noW] at hn; exact ih hn
+    | r =>
+      simp only [noW] at hn; intro p hp
+      rcases List.mem_cons.mp hp with hp | hp
+      · subst hp; simp
+      · exact ih hn p hp
   | tryOk b hd h t o _ _ ih => simp only [noW, Bool.and_eq_true] at hn; exact ih hn.1
   | tryCaught b hd h h1 t t' o _ _ ihb ihh =>
     simp only [noW, Bool.and_eq_true] at hn
@@ -116,7 +132,7 @@ example : disciplined (.lock .r (.seq (.ev .read) (.seq (.ev .unlock) (.ev .read
 example : disciplined (.seq (.lock .w (.ev .write)) (.ev .read)) = false := by decide
 example : disciplined (.lock .w (.lock .r (.ev .read))) = false := by decide
 example : disciplined (.lock .r (.try_ (.seq (.ev .read) (.ev .unlock)) (.ev .read))) = false := by decide
-example : Exec (.lock .w (.seq (.ev .write) .ret)) none [(.write, some .w), (.hook, some .w)] (.returned none) :=
+example : Exec (.lock .w (.seq (.ev .write) .ret)) none [(.acquire, none), (.write, some .w), (.hook, some .w)] (.returned none) :=
   .lockRet _ _ _ _ _ (.seq _ _ _ _ _ _ _ (.ev _ _) (.ret _))
 
 end C10
